@@ -548,3 +548,470 @@ Proof.
   - pose proof (step_keeps_priv v p s x t ft Hinv) as Hinv1. rewrite E1 in Hinv1; simpl in Hinv1.
     specialize (IH s1 Hinv1 u w). rewrite E2 in IH; simpl in IH. auto.
 Qed.
+
+(* ------------------------------------------------------------------ *)
+(** * Isolation: the local view of an activation is a function of its start and of its own communications *)
+
+Lemma code_local_no_go k : code_local k = true -> code_no_go k = true.
+Proof.
+  unfold code_local, code_no_go. induction k as [|i k IH]; simpl; auto.
+  intros H. apply andb_true_iff in H as [Hi Hk]. rewrite (IH Hk), andb_true_r.
+  destruct i; simpl in *; auto.
+Qed.
+
+Lemma code_local_tail i k : code_local (i :: k) = true -> instr_local i = true /\ code_local k = true.
+Proof. unfold code_local; simpl. intros H. apply andb_true_iff in H. exact H. Qed.
+
+Lemma eval_local fs f fr e :
+  nth_error fs f = Some fr -> expr_local e = true -> eval fs f e = eval_l (data fr) e.
+Proof.
+  intros Hf. induction e as [x|l i|a IHa b IHb]; simpl; intros H; auto.
+  - apply Nat.eqb_eq in H; subst l. unfold rd; simpl. unfold slot_of. now rewrite Hf.
+  - apply andb_true_iff in H as [H1 H2]. now rewrite IHa, IHb.
+Qed.
+
+Lemma wr0 fs f i x fr :
+  nth_error fs f = Some fr -> nth_error (wr fs f 0 i x) f = Some (set_data fr i x).
+Proof.
+  intros H. unfold wr; simpl. unfold wr_at. rewrite H.
+  apply nth_error_upd_same. apply nth_error_Some; congruence.
+Qed.
+
+Lemma nth_error_wr_other fs f l i x ft :
+  ~ reach (ancs fs) f ft -> nth_error (wr fs f l i x) ft = nth_error fs ft.
+Proof.
+  intros Hn. unfold wr. destruct (get_frame (ancs fs) f l) as [g|] eqn:E; auto.
+  unfold wr_at. destruct (nth_error fs g) eqn:Eg; auto.
+  apply nth_error_upd_other. intros ->. apply Hn. eauto using get_frame_reach.
+Qed.
+
+Lemma lview_of_eq s s' t :
+  nth_error (threads s') t = nth_error (threads s) t ->
+  (forall th, nth_error (threads s) t = Some th ->
+              nth_error (frames s') (tframe th) = nth_error (frames s) (tframe th)) ->
+  lview_of s' t = lview_of s t.
+Proof.
+  intros Et Ef. unfold lview_of. rewrite Et.
+  destruct (nth_error (threads s) t) as [th|]; auto. now rewrite (Ef _ eq_refl).
+Qed.
+
+(** a step of another thread leaves the local view of [t] untouched *)
+Lemma step_other v p s x t ft :
+  x <> t -> priv_inv s t ft -> lview_of (fst (step v p s x)) t = lview_of s t.
+Proof.
+  intros Hne ([Ha Ht] & (tht & Htt & Hft & Hng) & Hiso).
+  step_cases Hthx.
+  pose proof (Hiso _ _ Hne Hthx) as Hnr.
+  assert (Htl : t < length (threads s)) by (apply nth_error_Some; congruence).
+  assert (Hfl : ft < length (frames s)) by (rewrite <- Hft; eauto).
+  repeat break_match; cbn [fst]; try reflexivity; apply lview_of_eq;
+    cbn [frames threads with_thread];
+    try (apply nth_error_upd_other; congruence);
+    try (intros th' Ht'; rewrite Htt in Ht'; inversion Ht'; subst th'; rewrite Hft;
+         first [reflexivity | apply nth_error_wr_other; exact Hnr]).
+  - rewrite nth_error_app1 by (rewrite length_upd; exact Htl).
+    apply nth_error_upd_other; congruence.
+  - intros th' Ht'. rewrite Htt in Ht'; inversion Ht'; subst th'. rewrite Hft.
+    apply nth_error_app1. exact Hfl.
+Qed.
+
+Lemma lview_with_thread s fs cs gs t th th' fr' :
+  nth_error (threads s) t = Some th -> nth_error fs (tframe th') = Some fr' ->
+  lview_of (with_thread s fs cs gs t th') t =
+  Some {| lv_data := data fr'; lv_code := tcode th'; lv_phase := tphase th' |}.
+Proof.
+  intros Ht Hf. unfold lview_of, with_thread; cbn [threads frames].
+  rewrite nth_error_upd_same by (apply nth_error_Some; congruence). now rewrite Hf.
+Qed.
+
+Lemma lview_here s t th fr :
+  nth_error (threads s) t = Some th -> nth_error (frames s) (tframe th) = Some fr ->
+  lview_of s t = Some {| lv_data := data fr; lv_code := tcode th; lv_phase := tphase th |}.
+Proof. intros Ht Hf. unfold lview_of. now rewrite Ht, Hf. Qed.
+
+Lemma map_eval_local fs f fr (cls : list (expr * nat)) :
+  nth_error fs f = Some fr -> forallb (fun cl => expr_local (fst cl)) cls = true ->
+  map (fun cl => eval fs f (fst cl)) cls = map (fun cl => eval_l (data fr) (fst cl)) cls.
+Proof.
+  intros Hf H. apply map_ext_in. intros cl Hin.
+  rewrite forallb_forall in H. eauto using eval_local.
+Qed.
+
+(** a step of [t] itself changes its local view as [lstep] says, from the step's communications alone *)
+Lemma step_self v p s t th fr :
+  nth_error (threads s) t = Some th -> nth_error (frames s) (tframe th) = Some fr ->
+  code_local (tcode th) = true -> gen_readonly v (tcode th) = true ->
+  lview_of (fst (step v p s t)) t =
+  Some (lstep {| lv_data := data fr; lv_code := tcode th; lv_phase := tphase th |} (snd (step v p s t))).
+Proof.
+  intros Hth Hfr Hloc Hro. unfold step. rewrite Hth.
+  destruct (tphase th) as [|own|own vec] eqn:Hph; destruct (tcode th) as [|i k] eqn:Hc;
+    try (cbn [fst snd lstep lv_phase lv_code lv_data]; erewrite lview_here by eassumption;
+         rewrite ?Hph, ?Hc; reflexivity).
+  - (* PRun *)
+    apply code_local_tail in Hloc as [Hi Hk].
+    destruct i as [l i e|l i|ce ve|ce l i|sd cls|fn args]; cbn [instr_local] in Hi.
+    + apply andb_true_iff in Hi as [Hl He]. apply Nat.eqb_eq in Hl; subst l.
+      cbn [fst snd]. erewrite lview_with_thread; [|eassumption|cbn [th_code tframe]; apply wr0; eassumption].
+      cbn [lstep lv_phase lv_code lv_data th_code tcode tphase set_data data].
+      now rewrite (eval_local _ _ _ _ Hfr He).
+    + apply Nat.eqb_eq in Hi; subst l.
+      cbn [fst snd]. erewrite lview_with_thread; [|eassumption|cbn [th_code tframe]; apply wr0; eassumption].
+      reflexivity.
+    + destruct (eval (frames s) (tframe th) ce) eqn:Ece;
+        try (cbn [fst snd lstep lv_phase lv_code lv_data has_send existsb]; erewrite lview_here by eassumption;
+             rewrite ?Hph, ?Hc; reflexivity).
+      cbn [fst snd]. erewrite lview_with_thread; [|eassumption|cbn [th_code tframe]; eassumption].
+      reflexivity.
+    + apply andb_true_iff in Hi as [He Hl]. apply Nat.eqb_eq in Hl; subst l.
+      destruct (eval (frames s) (tframe th) ce) eqn:Ece;
+        try (cbn [fst snd lstep lv_phase lv_code lv_data first_recv fold_right]; erewrite lview_here by eassumption;
+             rewrite ?Hph, ?Hc; reflexivity).
+      destruct (nth_error (chans s) c) as [[|x q]|] eqn:Eq;
+        try (cbn [fst snd lstep lv_phase lv_code lv_data first_recv fold_right]; erewrite lview_here by eassumption;
+             rewrite ?Hph, ?Hc; reflexivity).
+      cbn [fst snd]. erewrite lview_with_thread; [|eassumption|cbn [th_code tframe]; apply wr0; eassumption].
+      reflexivity.
+    + destruct v.
+      * cbn [gen_readonly] in Hro. unfold code_no_select in Hro. simpl in Hro. discriminate.
+      * cbn [fst snd]. erewrite lview_with_thread; [|eassumption|cbn [th_phase tframe]; eassumption].
+        cbn [lstep lv_phase lv_code lv_data th_phase tcode tphase].
+        rewrite Hc. now rewrite (map_eval_local _ _ _ _ Hfr Hi).
+    + discriminate.
+  - (* PSnap *)
+    destruct i as [l i e|l i|ce ve|ce l i|sd cls|fn args];
+      try (cbn [fst snd lstep lv_phase lv_code lv_data]; erewrite lview_here by eassumption;
+           rewrite ?Hph, ?Hc; reflexivity).
+    destruct v.
+    + cbn [gen_readonly] in Hro. unfold code_no_select in Hro. simpl in Hro. discriminate.
+    + cbn [fst snd]. erewrite lview_with_thread; [|eassumption|cbn [th_phase tframe]; eassumption].
+      cbn [lstep lv_phase lv_code lv_data th_phase tcode tphase]. now rewrite Hc.
+  - (* PWait *)
+    destruct i as [l i e|l i|ce ve|ce l i|sd cls|fn args];
+      try (cbn [fst snd lstep lv_phase lv_code lv_data]; erewrite lview_here by eassumption;
+           rewrite ?Hph, ?Hc; reflexivity).
+    destruct (find_ready (chans s) vec 0) as [[[[j c] x] q]|] eqn:Efr;
+      try (cbn [fst snd lstep lv_phase lv_code lv_data first_recv fold_right]; erewrite lview_here by eassumption;
+           rewrite ?Hph, ?Hc; reflexivity).
+    cbn [fst snd]. erewrite lview_with_thread; [|eassumption|cbn [th_code tframe]; apply wr0; eassumption].
+    reflexivity.
+Qed.
+
+Lemma lstep_code lv es :
+  lv_code (lstep lv es) = lv_code lv \/ exists i, lv_code lv = i :: lv_code (lstep lv es).
+Proof.
+  destruct lv as [d code ph]. unfold lstep. cbn [lv_code lv_phase lv_data].
+  destruct ph; destruct code as [|i k]; cbn [lv_code]; auto;
+    destruct i; cbn [lv_code]; auto; repeat break_match; cbn [lv_code]; eauto.
+Qed.
+
+Lemma gen_readonly_tail v i k : gen_readonly v (i :: k) = true -> gen_readonly v k = true.
+Proof. destruct v; simpl; auto. intros H. now apply code_no_select_tail in H. Qed.
+
+Lemma lview_of_inv s t lv :
+  lview_of s t = Some lv ->
+  exists th fr, nth_error (threads s) t = Some th /\ nth_error (frames s) (tframe th) = Some fr
+                /\ lv = {| lv_data := data fr; lv_code := tcode th; lv_phase := tphase th |}.
+Proof.
+  unfold lview_of. destruct (nth_error (threads s) t) as [th|] eqn:Et; [|discriminate].
+  destruct (nth_error (frames s) (tframe th)) as [fr|] eqn:Ef; [|discriminate].
+  intros H; inversion H. exists th, fr. auto.
+Qed.
+
+Lemma isolation_inv v p sched t ft : forall s lv,
+  priv_inv s t ft -> lview_of s t = Some lv ->
+  code_local (lv_code lv) = true -> gen_readonly v (lv_code lv) = true ->
+  lview_of (fst (run_steps v p sched s)) t = Some (replay t lv (snd (run_steps v p sched s))).
+Proof.
+  induction sched as [|x r IH]; intros s lv Hinv Hlv Hloc Hro; simpl; [exact Hlv|].
+  destruct (step v p s x) as [s1 e1] eqn:E1.
+  destruct (run_steps v p r s1) as [s2 e2] eqn:E2. cbn [fst snd replay].
+  pose proof (step_keeps_priv v p s x t ft Hinv) as Hinv1. rewrite E1 in Hinv1; cbn [fst] in Hinv1.
+  destruct (Nat.eqb_spec x t) as [->|Hne].
+  - destruct (lview_of_inv _ _ _ Hlv) as (th & fr & Hth & Hfr & ->). cbn [lv_code] in Hloc, Hro.
+    pose proof (step_self v p s t th fr Hth Hfr Hloc Hro) as Hs. rewrite E1 in Hs; cbn [fst snd] in Hs.
+    set (lv0 := {| lv_data := data fr; lv_code := tcode th; lv_phase := tphase th |}) in *.
+    assert (Hloc1 : code_local (lv_code (lstep lv0 e1)) = true /\ gen_readonly v (lv_code (lstep lv0 e1)) = true).
+    { destruct (lstep_code lv0 e1) as [->|[i Ei]]; [auto|].
+      cbn [lv0 lv_code] in Ei. rewrite Ei in Hloc, Hro.
+      split; [now apply code_local_tail in Hloc|eauto using gen_readonly_tail]. }
+    destruct Hloc1 as [Hl1 Hr1].
+    specialize (IH s1 _ Hinv1 Hs Hl1 Hr1). rewrite E2 in IH; exact IH.
+  - pose proof (step_other v p s x t ft Hne Hinv) as Ho. rewrite E1 in Ho; cbn [fst] in Ho.
+    rewrite <- Ho in Hlv.
+    specialize (IH s1 _ Hinv1 Hlv Hloc Hro). rewrite E2 in IH; exact IH.
+Qed.
+
+(** T2. For every schedule, program, and whatever the other threads do: the local view (own slots, remaining
+    code, position inside a select) of an activation that uses only its own arguments and locals is the
+    replay of its start view against its own steps' communications — provided generated state is read-only
+    for its code (per-execution select vector, or no select). *)
+Theorem isolation v p sched s t lv :
+  wf s -> isolated s t -> lview_of s t = Some lv ->
+  code_local (lv_code lv) = true -> gen_readonly v (lv_code lv) = true ->
+  lview_of (fst (run_steps v p sched s)) t = Some (replay t lv (snd (run_steps v p sched s))).
+Proof.
+  intros Hwf Hiso Hlv Hloc Hro.
+  destruct (lview_of_inv _ _ _ Hlv) as (th & fr & Hth & Hfr & E).
+  apply isolation_inv with (ft := tframe th); auto.
+  split; auto. split.
+  - exists th. split; auto. split; auto. apply code_local_no_go. now rewrite E in Hloc.
+  - intros u thu Hu H. exact (Hiso _ Hth _ _ Hu H).
+Qed.
+
+(** ** the replay looks at communications only *)
+
+Definition is_comm (e : event) : bool :=
+  match e with EvMake _ _ | EvSend _ _ _ | EvRecv _ _ _ _ _ => true | _ => false end.
+
+Definition comms (es : list event) : list event := filter is_comm es.
+
+Lemma first_make_comms es : first_make (comms es) = first_make es.
+Proof. induction es as [|e r IH]; simpl; auto. destruct e; simpl; auto. Qed.
+
+Lemma first_recv_comms es : first_recv (comms es) = first_recv es.
+Proof. induction es as [|e r IH]; simpl; auto. destruct e; simpl; auto. Qed.
+
+Lemma has_send_comms es : has_send (comms es) = has_send es.
+Proof. induction es as [|e r IH]; simpl; auto. destruct e; simpl; auto. Qed.
+
+Lemma lstep_comms lv es : lstep lv (comms es) = lstep lv es.
+Proof. unfold lstep. now rewrite first_make_comms, first_recv_comms, has_send_comms. Qed.
+
+(** the communications of the own steps of [t], step by step *)
+Definition own_comms (t : tid) (tr : list (tid * list event)) : list (list event) :=
+  map (fun st => comms (snd st)) (filter (fun st => Nat.eqb (fst st) t) tr).
+
+Lemma replay_own_comms t tr : forall lv, replay t lv tr = fold_left lstep (own_comms t tr) lv.
+Proof.
+  unfold own_comms. induction tr as [|[u es] r IH]; intros lv; simpl; auto.
+  destruct (Nat.eqb u t); simpl; auto. now rewrite lstep_comms.
+Qed.
+
+(** Two runs — different programs around it, different variants even, different schedules, different other
+    threads — in which an activation starts with the same arguments and has the same communications
+    end with the same local view. *)
+Theorem isolation_two_runs v1 p1 sched1 s1 t1 v2 p2 sched2 s2 t2 lv :
+  wf s1 -> isolated s1 t1 -> lview_of s1 t1 = Some lv ->
+  wf s2 -> isolated s2 t2 -> lview_of s2 t2 = Some lv ->
+  code_local (lv_code lv) = true ->
+  gen_readonly v1 (lv_code lv) = true -> gen_readonly v2 (lv_code lv) = true ->
+  own_comms t1 (snd (run_steps v1 p1 sched1 s1)) = own_comms t2 (snd (run_steps v2 p2 sched2 s2)) ->
+  lview_of (fst (run_steps v1 p1 sched1 s1)) t1 = lview_of (fst (run_steps v2 p2 sched2 s2)) t2.
+Proof.
+  intros W1 I1 L1 W2 I2 L2 Hloc R1 R2 E.
+  rewrite (isolation v1 p1 sched1 s1 t1 lv W1 I1 L1 Hloc R1).
+  rewrite (isolation v2 p2 sched2 s2 t2 lv W2 I2 L2 Hloc R2).
+  now rewrite !replay_own_comms, E.
+Qed.
+
+(* ------------------------------------------------------------------ *)
+(** * The property as a statement about the machine *)
+
+(** every thread is between statements (not in the middle of a select) *)
+Definition all_run (s : state) : Prop :=
+  forall u thu, nth_error (threads s) u = Some thu -> tphase thu = PRun.
+
+Lemma all_run_phase_ok s : all_run s -> phase_ok s.
+Proof. intros H u thu own vec Hu Hp. rewrite (H _ _ Hu) in Hp. discriminate. Qed.
+
+(** what the program can see of a state: slot contents, channel contents, remaining code *)
+Definition visible (s : state) : list (list val) * list (list val) * list (list instr) :=
+  (map data (frames s), chans s, map tcode (threads s)).
+
+(** C08 for an interpreter whose select statement is variant [v]: under every schedule the interpreter
+    computes what the Go-prescribed machine (per-execution select) computes, its bookkeeping never writes
+    state shared between the goroutines executing one statement, and no activation receives on a channel
+    it did not designate. *)
+Definition statement_for (v : variant) : Prop :=
+  forall p sched s, wf s -> all_run s ->
+    visible (fst (run v p sched s)) = visible (fst (run PerExec p sched s))
+    /\ no_gen_write (snd (run v p sched s)) = true
+    /\ no_crosstalk (snd (run v p sched s)) = true.
+
+Lemma statement_perexec : statement_for PerExec.
+Proof.
+  intros p sched s _ Har. split; [reflexivity|].
+  apply readonly_run. left. split; auto using all_run_phase_ok.
+Qed.
+
+(** ** programs without select: both variants are the same machine *)
+
+Lemma step_variant_indep p s t :
+  threads_no_select s -> step Shared p s t = step PerExec p s t.
+Proof.
+  intros Hns. unfold step. destruct (nth_error (threads s) t) as [th|] eqn:Hth; auto.
+  specialize (Hns _ _ Hth).
+  destruct (tphase th); destruct (tcode th) as [|i k]; auto; destruct i; auto;
+    unfold code_no_select in Hns; simpl in Hns; discriminate.
+Qed.
+
+Lemma run_variant_indep p sched : forall s,
+  prog_no_select p = true -> threads_no_select s -> run Shared p sched s = run PerExec p sched s.
+Proof.
+  induction sched as [|t r IH]; intros s Hp Hns; simpl; auto.
+  rewrite (step_variant_indep p s t Hns).
+  destruct (step PerExec p s t) as [s1 e1] eqn:E1.
+  assert (Hns1 : threads_no_select s1).
+  { pose proof (step_keeps_readonly Shared p s t (or_intror (conj Hp Hns))) as H.
+    rewrite (step_variant_indep p s t Hns), E1 in H; cbn [fst] in H.
+    destruct H as [[H _]|[_ H]]; [discriminate|exact H]. }
+  now rewrite (IH s1 Hp Hns1).
+Qed.
+
+Lemma statement_select_free v p sched s :
+  prog_no_select p = true -> threads_no_select s ->
+  visible (fst (run v p sched s)) = visible (fst (run PerExec p sched s))
+  /\ no_gen_write (snd (run v p sched s)) = true
+  /\ no_crosstalk (snd (run v p sched s)) = true.
+Proof.
+  intros Hp Hns. split.
+  - destruct v; auto. now rewrite run_variant_indep.
+  - apply readonly_run. right. auto.
+Qed.
+
+(** ** the tie: which variant the source is, read off the regenerated table *)
+
+Lemma key_eqb_eq a b : key_eqb a b = true -> a = b.
+Proof.
+  destruct a as [[[a1 a2] a3] a4], b as [[[b1 b2] b3] b4]. unfold key_eqb.
+  intros H. repeat (apply andb_true_iff in H as [H ?]).
+  repeat match goal with E : String.eqb _ _ = true |- _ => apply String.eqb_eq in E end.
+  congruence.
+Qed.
+
+Lemma allow_open_disjoint : forallb (fun a => negb (key_mem a open_select_cases)) allowlist = true.
+Proof. vm_compute. reflexivity. Qed.
+
+Lemma key_mem_open_not_allow k : key_mem k allowlist = true -> key_mem k open_select_cases = false.
+Proof.
+  unfold key_mem at 1. intros H. apply existsb_exists in H as (a & Hin & He).
+  apply key_eqb_eq in He; subst a.
+  pose proof allow_open_disjoint as D. rewrite forallb_forall in D.
+  apply negb_true_iff. auto.
+Qed.
+
+Lemma readonly_variant rows : captured_readonly rows = true -> variant_of rows = PerExec.
+Proof.
+  unfold captured_readonly, variant_of. intros H.
+  assert (E : existsb (fun r => key_mem (key_of r) open_select_cases) rows = false).
+  { induction rows as [|r l IH]; [reflexivity|].
+    cbn [forallb] in H. apply andb_true_iff in H as [Hr Hl].
+    cbn [existsb]. now rewrite (key_mem_open_not_allow _ Hr), (IH Hl). }
+  now rewrite E.
+Qed.
+
+Lemma statement_partial rows : captured_readonly rows = true -> statement_for (variant_of rows).
+Proof. intros H. rewrite (readonly_variant rows H). exact statement_perexec. Qed.
+
+Lemma captured_reviewed_today : captured_writes_reviewed captured_gen = true.
+Proof. vm_compute. reflexivity. Qed.
+
+(* ------------------------------------------------------------------ *)
+(** * The witness: two workers, one select statement, private channels *)
+
+Definition main_done (v : variant) : state := fst (run v witness_prog [0; 0; 0; 0; 0; 0] witness_init).
+
+Lemma select_shared_refuted :
+  (* thread A (1) receives 9, the value main put into B's private channel; B (2) is left waiting *)
+  received (fst (run Shared witness_prog witness_sched witness_init)) 1 = VInt 9
+  /\ received (fst (run Shared witness_prog witness_sched witness_init)) 2 = VNil
+  /\ crosstalk_events (snd (run Shared witness_prog witness_sched witness_init)) = [EvRecv 1 0 1 (VInt 9) (VChan 0)]
+  /\ no_crosstalk (snd (run Shared witness_prog witness_sched witness_init)) = false
+  (* two adjacent steps of different threads write cases[0] of statement 0 *)
+  /\ no_gen_write (snd (run Shared witness_prog witness_sched witness_init)) = false
+  /\ gen_race 1 (snd (run_steps Shared witness_prog witness_sched witness_init)) = true
+  (* the same schedule with the per-execution vector *)
+  /\ received (fst (run PerExec witness_prog witness_sched witness_init)) 1 = VInt 7
+  /\ received (fst (run PerExec witness_prog witness_sched witness_init)) 2 = VInt 9.
+Proof. vm_compute. repeat split; reflexivity. Qed.
+
+Lemma wf_witness_init : wf witness_init.
+Proof.
+  split.
+  - intros [|[|f]] p; simpl; intros H; try discriminate; try (destruct f; discriminate).
+  - intros [|[|t]] th; simpl; intros H; try discriminate; try (destruct t; discriminate).
+    inversion H; subst; simpl; lia.
+Qed.
+
+Lemma all_run_witness_init : all_run witness_init.
+Proof.
+  intros [|[|t]] th; simpl; intros H; try discriminate; try (destruct t; discriminate).
+  inversion H; reflexivity.
+Qed.
+
+Lemma statement_shared_refuted : ~ statement_for Shared.
+Proof.
+  intros H. destruct (H witness_prog witness_sched witness_init wf_witness_init all_run_witness_init) as (_ & _ & Hc).
+  destruct select_shared_refuted as (_ & _ & _ & E & _). rewrite E in Hc. discriminate Hc.
+Qed.
+
+(** ** non-vacuity of the premises *)
+
+Lemma wf_main_done v : wf (main_done v).
+Proof.
+  unfold main_done.
+  assert (E : forall sched s, wf s -> wf (fst (run v witness_prog sched s))).
+  { induction sched as [|t r IH]; intros s Hs; simpl; auto.
+    pose proof (step_wf v witness_prog s t Hs) as H1.
+    destruct (step v witness_prog s t) as [s1 e1]. specialize (IH s1 H1).
+    destruct (run v witness_prog r s1) as [s2 e2]. exact IH. }
+  apply E. exact wf_witness_init.
+Qed.
+
+Lemma isolated_main_done v : isolated (main_done v) 1.
+Proof.
+  assert (Ea : ancs (frames (main_done v)) = [None; Some 0; Some 0]) by (destruct v; reflexivity).
+  assert (Et : map tframe (threads (main_done v)) = [0; 1; 2]) by (destruct v; reflexivity).
+  intros th Hth u thu Hu Hthu. rewrite Ea.
+  assert (F1 : tframe th = 1).
+  { apply (map_nth_error tframe) in Hth. rewrite Et in Hth. simpl in Hth. congruence. }
+  assert (Fu : tframe thu = 0 \/ tframe thu = 2).
+  { apply (map_nth_error tframe) in Hthu. rewrite Et in Hthu.
+    destruct u as [|[|[|u]]]; simpl in Hthu; try congruence; try (inversion Hthu; auto).
+    destruct u; discriminate. }
+  rewrite F1.
+  assert (R0 : ~ reach [None; Some 0; Some 0] 0 1).
+  { intros R. inversion R as [|f q g Hn R']; subst. simpl in Hn. discriminate. }
+  destruct Fu as [-> | ->]; auto.
+  intros R. inversion R as [|f q g Hn R']; subst. simpl in Hn. inversion Hn; subst. auto.
+Qed.
+
+Definition worker_start : lview :=
+  {| lv_data := [VChan 0; VNil]; lv_code := worker_body; lv_phase := PRun |}.
+
+Lemma premises_inhabited :
+  (* the premises of [activation_frame_private], [isolation], [readonly_run] hold of the witness ... *)
+  wf (main_done PerExec) /\ isolated (main_done PerExec) 1
+  /\ lview_of (main_done PerExec) 1 = Some worker_start
+  /\ code_local (lv_code worker_start) = true /\ code_no_go (lv_code worker_start) = true
+  /\ gen_readonly PerExec (lv_code worker_start) = true
+  /\ readonly_cond PerExec witness_prog witness_init
+  (* ... and the conclusion is not trivial there: the worker does receive its value *)
+  /\ lview_of (fst (run_steps PerExec witness_prog [1; 2; 1; 1; 2; 2] (main_done PerExec))) 1
+     = Some {| lv_data := [VChan 0; VInt 7]; lv_code := []; lv_phase := PRun |}
+  /\ existsb (fun e => match e with EvRecv 1 _ _ _ _ => true | _ => false end)
+             (snd (run PerExec witness_prog witness_sched witness_init)) = true.
+Proof.
+  split; [apply wf_main_done|]. split; [apply isolated_main_done|].
+  split; [reflexivity|]. split; [reflexivity|]. split; [reflexivity|]. split; [reflexivity|].
+  split; [left; split; [reflexivity|apply all_run_phase_ok, all_run_witness_init]|].
+  split; vm_compute; reflexivity.
+Qed.
+
+Lemma select_free_inhabited :
+  (* a select-free program with two communicating goroutines: premise and a non-trivial run *)
+  let p : prog := [(1, [IRecv (ESlot 0 0) 0 1])] in
+  let s0 := {| frames := [{| anc := None; data := [VNil] |}]; chans := []; gens := [];
+               threads := [{| tframe := 0; tphase := PRun;
+                              tcode := [IMake 0 0; IGo 0 [ESlot 0 0]; ISend (ESlot 0 0) (EConst (VInt 5))] |}] |} in
+  prog_no_select p = true /\ threads_no_select s0
+  /\ received (fst (run Shared p [0; 0; 0; 1] s0)) 1 = VInt 5.
+Proof.
+  cbv zeta. split; [reflexivity|]. split; [|vm_compute; reflexivity].
+  intros [|[|u]] thu; simpl; intros H; try discriminate; try (destruct u; discriminate).
+  inversion H; reflexivity.
+Qed.
+
+Lemma table_inhabited : captured_readonly [] = true /\ variant_of [] = PerExec.
+Proof. split; reflexivity. Qed.
